@@ -891,6 +891,10 @@ class _Run:
                     self.check_tables("after %s of leading round %d" % (kind, n + 1))
         if rounds and self.case.get("double") and self.state == "THIRD":
             self.op_restore(dict(tmpl, op="restore"))
+        if self.case.get("edgeShape") and self.state == "THIRD" and not no_lower:
+            self.op_add_edge(dict(tmpl, op="addEdge"))  # deliberate shape: add, second changer adds again (and maybe removes)
+            if self.state != "BROKEN":
+                self.check_tables("after the leading edge addition")
         for n, op in enumerate(self.case["program"]):
             kind = op["op"]
             if kind not in enabled or self.state == "BROKEN":
